@@ -77,7 +77,7 @@ func c13Differential(c *hx.Ctx, r *hx.RNG) {
 		v = oracle.Val{Form: oracle.Finite, Neg: ex.Neg, Coef: ex.Coef, Exp: ex.Exp}
 	}
 	x := hx.MkR(r, v, digitsOf(v)+uint(r.Intn(3)), oracle.ToNearestEven)
-	pre := hx.Snapshot(x)
+	pre, preRaw := hx.Snapshot(x), hx.RawOf(x)
 	exactShort := shortestIsExact(f)
 	if r.Bool() { // Text / Append against strconv.FormatFloat
 		ft := "eEfgG"[r.Intn(5)]
@@ -166,7 +166,7 @@ func c13Differential(c *hx.Ctx, r *hx.RNG) {
 			return
 		}
 	}
-	if !hx.SameState(pre, hx.Snapshot(x)) {
+	if !hx.SameState(pre, hx.Snapshot(x)) || !preRaw.Identical(hx.RawOf(x)) {
 		c.Violate("operand-modified", "formatting changed x", "")
 	}
 }
@@ -233,7 +233,7 @@ func c13Model(c *hx.Ctx, r *hx.RNG) {
 	if c.Verbose {
 		fmt.Println("case:", what)
 	}
-	pre := hx.Snapshot(x)
+	pre, preRaw := hx.Snapshot(x), hx.RawOf(x)
 	var got string
 	pi := hx.Try(func() { got = x.Text(ft, prec) })
 	c.Eval(hx.HashStr(what), v.Form == oracle.Finite, fmt.Sprintf("model/%c/%s", ft, cls))
@@ -259,7 +259,7 @@ func c13Model(c *hx.Ctx, r *hx.RNG) {
 		c.Violate("wrong-text", fmt.Sprintf("%s = %q, want %q", what, trunc120(got), trunc120(want)), carryPastMaxExp(v, mode, ft, prec))
 		return
 	}
-	if !hx.SameState(pre, hx.Snapshot(x)) {
+	if !hx.SameState(pre, hx.Snapshot(x)) || !preRaw.Identical(hx.RawOf(x)) {
 		c.Violate("operand-modified", what+": formatting changed x", "")
 	}
 	// Format: sign, width, '+', ' ', '0', '-' on top of the same digits (the float64 differential validates this emulation's
